@@ -41,7 +41,14 @@ Theorem C09_seek_complete : forall s r k, wf s ->
 Proof. exact seek_complete. Qed.
 Print Assumptions C09_seek_complete.
 
-(* dao.Simple.Seek / SeekAsync and the Storage.Find iterator: the contract's own keys, header cut *)
+(* dao.Simple.Seek / SeekAsync and the Storage.Find iterator: the contract's own keys, header cut.
+   NOTE (aliasing): the model has value semantics — a range's prefix is a value, the consumer of a scan is not part of
+   the model.  In the Go code a PRIVATE dao builds every key in one reusable buffer (getKeyBuf) and the consumer may
+   re-enter the same dao between two delivered pairs ("f() can use dao too"); dao.Seek/SeekAsync therefore clone the
+   prefix, and BoltDB re-reads rng.Prefix on every cursor step.  That the scan's answer does not depend on what the
+   consumer does with the dao in between cannot be stated here; it is a correspondence matter: harness/c09.go consumes
+   dao-level scans and Find iterators with consumers that re-enter the dao in every way (field "re" of the query) and
+   the answer must still be this range query (code 2 otherwise). *)
 Theorem C09_dao_seek_refines : forall s id r, wf s -> layers s <> [] -> range_ok r ->
   dao_seek s id r = spec_dao_seek s id r.
 Proof. exact dao_seek_refines. Qed.
